@@ -144,6 +144,11 @@ type firedLog struct {
 
 func (l *firedLog) fire(m *member) {
 	m.cancel()
+	// give whatever reacts to the member's end from another goroutine (a watcher, an AfterFunc callback) a bounded
+	// chance to run before the method that is the schedule point returns
+	for i := 0; i < 300; i++ {
+		runtime.Gosched()
+	}
 	l.mu.Lock()
 	l.ms = append(l.ms, m)
 	l.mu.Unlock()
